@@ -197,6 +197,20 @@ impl<C: Suite> Model for M07<C> {
                 let v = guard(|| ms.verify(mpk, &msg));
                 o.calls(3);
                 let acc = matches!(v, Ok(Ok(())));
+                // trait level routes: aggregate_public_keys / from_public_keys / from_signatures / aggregate_signatures / multi_sig_verify
+                {
+                    let a1 = <C as BlsSignatureCore>::aggregate_public_keys(keys.iter().map(|k| k.0));
+                    let a2 = <C as BlsMultiKey>::from_public_keys(keys.iter().map(|k| k.0));
+                    o.expect(&format!("C07:trait-key-accumulation-agrees:{}", g), a1 == mpk.0 && a2 == mpk.0, "equal", "differ");
+                    let s1 = <C as BlsSignatureCore>::aggregate_signatures(sigs.iter().map(|x| *x.as_raw_value()));
+                    let s2 = <C as BlsMultiSignature>::from_signatures(sigs.iter().map(|x| *x.as_raw_value()));
+                    o.expect(&format!("C07:trait-signature-accumulation-agrees:{}", g), s1 == *ms.as_raw_value() && s2 == s1, "equal", "differ");
+                    if s == Scheme::Pop {
+                        let tv = guard(|| <C as BlsSignaturePop>::multi_sig_verify(keys.iter().map(|k| k.0), *ms.as_raw_value(), &msg));
+                        o.calls(1);
+                        o.expect(&format!("C07:trait-multi_sig_verify-agrees:{}:{}", g, cls_of(edit)), matches!(tv, Ok(Ok(()))) == acc && tv.is_ok(), verdict(&v), verdict(&tv));
+                    }
+                }
                 o.record("acc", &[acc as u8]);
                 if want {
                     o.outcome(if acc { "exact-set:accept" } else { "exact-set:reject" });
@@ -210,6 +224,10 @@ impl<C: Suite> Model for M07<C> {
             }
         }
     }
+}
+
+fn cls_of(e: &Option<Edit>) -> String {
+    e.map(|e| format!("{:?}", e).split('(').next().unwrap().to_string()).unwrap_or("exact-set".into())
 }
 
 fn depth_of<C: Suite>(_m: &M07<C>, s: &St) -> usize {
